@@ -40,7 +40,7 @@ def _bin_table(rng, tier, nchrom=None, nbins=None, force_hole=False):
             elif u < (0.45 if edge else 0.08) or (hole and hole[0] <= k < hole[1]):
                 lg, dep = -24.0 + rng.random(), 0.0          # null coverage
             rows.append(dict(chromosome=c, start=pos, end=pos + L,
-                             gene=rng.choice(["A", "A", "B", "C", "Antitarget", "-", "CGH", "D"]),
+                             gene=rng.choice(["A", "A", "B", "C", "Antitarget", "Background", "-", ".", "CGH", "D"]),
                              log2=lg, depth=dep, weight=w))
             pos += L + rng.choice([0, 0, 100, 5000])
     return CopyNumArray(pd.DataFrame(rows), {"sample_id": "s"})
